@@ -1401,3 +1401,12 @@ Proof.
     apply Z.eqb_neq in Hm. rewrite Hm. rewrite Z.mod_mul by lia. cbn [Z.eqb].
     rewrite Z.div_mul by lia. reflexivity.
 Qed.
+
+(* meta-less readers: for every announced count within the data, .bin and .cbin expose it *)
+Lemma nometa_transparent w ns : 1 <= w_nc w -> 1 <= ns <= w_n w ->
+  r_open_nometa w DBin ns = Some ns /\ r_open_nometa w DCbin ns = Some ns.
+Proof.
+  intros Hc Hn. unfold r_open_nometa, fsize. split; [|reflexivity].
+  replace ((0 <? ns) && (ns * w_nc w * 2 <=? 2 * w_n w * w_nc w)) with true; [reflexivity|].
+  symmetry. apply andb_true_intro. split; [apply Z.ltb_lt; lia|apply Z.leb_le; nia].
+Qed.
